@@ -41,6 +41,8 @@ type thread struct {
 	curDelta int
 	applied  bool
 	reserved bool
+	// own steps taken inside Wait while no Add/Inc/Dec was in flight
+	waitRest int
 }
 
 type gImpl struct {
@@ -58,6 +60,7 @@ type gImpl struct {
 	lzc     int // instants with lb <= 0
 	sumRet  int // sum of deltas of returned Add calls
 	inAdd   int // Add calls in flight
+	mon2    string // C02 verdict raised inside a schedule (sticky)
 	mon     string
 	variant string
 	roChans []<-chan struct{}
@@ -182,6 +185,7 @@ func (g *gImpl) startCase(ws []string) string {
 	g.chans = map[int]chan struct{}{}
 	g.nextID = 0
 	g.count, g.wchan, g.lock, g.zc, g.lb, g.lzc, g.sumRet, g.inAdd, g.mon = 0, 0, "-", 1, 0, 1, 0, 0, "ok"
+	g.mon2 = ""
 	g.reservedSum = 0
 	g.threads = nil
 	g.s = sched.New()
@@ -361,7 +365,23 @@ func (g *gImpl) step(tid int) string {
 		t.reserved = true
 		g.reservedSum += -t.curDelta
 	}
+	restBefore := g.inAdd == 0
 	op := g.s.Step(tid)
+	// C02, non-blocking clause exactly as worded: a goroutine inside Wait while no Add/Inc/Dec is in
+	// flight must return within a few of its own steps (the model needs at most two loads per
+	// iteration and one stale iteration: 4; the bound is 8)
+	if g.inAdd > 0 {
+		for _, th := range g.threads {
+			th.waitRest = 0
+		}
+	} else if t := g.threads[tid]; t.status == "wait" && !g.s.Done(tid) && restBefore {
+		t.waitRest++
+		if t.waitRest > 8 && g.mon2 == "" {
+			g.mon2 = "C02:wait-does-not-return-while-no-add-in-flight"
+		}
+	} else {
+		t.waitRest = 0
+	}
 	if op != nil && op.Kind == "ctr-update" {
 		if t := g.threads[tid]; t.status == "add" || true {
 			if t.reserved && !t.applied {
@@ -384,6 +404,9 @@ func (g *gImpl) step(tid int) string {
 	out := label + " " + st
 	if g.mon != "ok" {
 		out += " mon=" + g.mon
+	}
+	if g.mon2 != "" {
+		out += " mon=" + g.mon2
 	}
 	return out
 }
